@@ -6,6 +6,7 @@
 package zzverif
 
 import (
+	"regexp"
 	"bytes"
 	"encoding/json"
 	"flag"
@@ -485,7 +486,10 @@ func (rc *RunCtx) writeReplay(cfg interface{}, ops []Op) {
 }
 
 // blockedSummary lists the top nsq frame of every goroutine in a stack dump.
+var hexArgRe = regexp.MustCompile(`0x[0-9a-f]+`)
+
 func blockedSummary(stacks string) string {
+	stacks = hexArgRe.ReplaceAllString(stacks, "0x?") // heap addresses are not a function of the seed
 	var out []string
 	seen := map[string]int{}
 	for _, g := range strings.Split(stacks, "\n\n") {
